@@ -18,7 +18,7 @@ from pathlib import Path
 from ..core import Family
 from ..sim import client_holdpeer as H
 from ..sim.client_storefault import store_fault
-from .c03 import CA_FIRST, CERT_FP, CERTS, DOTTED_FIRST, HOSTS, SHM, TWIN_PAIRS, Runner, cert_desc, expected_steps, sem, spell, variant_id
+from .c03 import CA_FIRST, CERT_FP, CERTS, DOTTED_FIRST, HOSTS, SELF_TWINS, SHM, TWIN_PAIRS, Runner, cert_desc, expected_steps, sem, spell, variant_id
 
 ID = "C11"
 READY = True
@@ -56,6 +56,9 @@ ASSUMPTIONS = [
     "a pin stays in force however many OTHER host:port pairs the store sees for the first time afterwards (300 / 1100 / in the thorough tier 2100 of them, recorded "
     "the way the client records a first use: TOFUDatabase.trust): a store has no licence to forget a pin, so the impostor of a host pinned long ago must still be "
     "refused with nothing sent",
+    "a peer may put further certificates behind its own in its Certificate message (copies of any PUBLIC certificate: the one the host is pinned to, an unrelated "
+    "one) - it needs no key for them and, the TOFU context being CERT_NONE, nothing verifies that they form a chain.  The certificate OF THE PEER is the first "
+    "one, the one whose key it proved in the handshake: that one has to pass the pin check, whatever follows it (sim/client_tlspeer.py step append_certs)",
 ]
 LEVEL_TEXT = ("Lean 4 theorems over a hand-written model of the ordered effect trace of GeminiClient._get_single / upload (connect, verify, trust, "
               "send, await, close), for every store, key, presented certificate and payload, lifted to arbitrary histories and redirect chains; the model "
@@ -111,6 +114,11 @@ MODES = ["eager", "lazy", "never"]
 #   crowd       between the making of the target's pin and the call, the same store sees N OTHER host:port pairs for the first time
 #               (TOFUDatabase.trust = what the client does on a first use): {"n": N, "shape": "names" (other host names, the target's port
 #               number) | "ports" (the target's host name, other port numbers) | "mixed"}
+#   pad         the scripted peers of the scenario (the target, the impostor behind a dropped connection, the rival's and the bystander's peer) put
+#               FURTHER certificates behind their own in the Certificate message, a list of: "counter" = a copy of the scenario's other
+#               certificate (for the peer of a "changed" host, for an impostor: the certificate the host is PINNED to; for the genuine peer: the
+#               impostor's), "third" = a copy of a certificate that plays no part in the scenario.  The peer's own certificate stays the first
+PADS = [["counter"], ["third", "counter"], ["counter", "third"], ["third"]]
 WARMS = [None, "other-port", "other-host"]
 RIVAL_HOWS = ["hold", "hold-rival", "gather"]
 RIVAL_SITS = ("unpinned", "pinned", "changed")
@@ -147,6 +155,33 @@ class SpellRunner(Runner):
         if self.hcase and ":" not in name and "%" not in name:
             u = "gemini://" + recase(name, self.hcase) + u[len("gemini://") + len(name):]
         return u
+
+
+def pad_names(case, leaf: int, counter: int | None = None) -> list:
+    """names of the certificates a peer presenting `leaf` appends to its Certificate message ([] = none)"""
+    pad = case.get("pad")
+    if not pad:
+        return []
+    c = case["cert"]
+    o = other_cert(c, case.get("twin"))
+    if counter is None:
+        counter = c if leaf == o else o
+    third = next(x for x in (2, 0, 1, 4) if x not in (c, o, leaf, counter))
+    return [CERTS[counter if tok == "counter" else third] for tok in pad]
+
+
+def pad_desc(case, leaf: int, pinned: int | None = None, counter: int | None = None) -> str:
+    names = pad_names(case, leaf, counter)
+    if not names:
+        return ""
+    return (f" [the peer's own certificate {CERTS[leaf]!r} FOLLOWED in its Certificate message by a copy of "
+            + " and of ".join(repr(n) + (" (the certificate the host is pinned to)" if pinned is not None and n == CERTS[pinned] else "") for n in names) + "]")
+
+
+def chain_desc(p) -> str:
+    """what a connection's peer put behind its own certificate, for the messages"""
+    ch = (p.get("chain") or [])[1:]
+    return f" FOLLOWED in the Certificate message by a copy of {' and of '.join(repr(n) for n in ch)}" if ch else ""
 
 
 def along_cert(case) -> int:
@@ -257,7 +292,7 @@ def should_fail(case):
 class Scenarios(Family):
     realtime = True     # runs on the wall clock (sockets, threads): a failure is re-run once before it counts (core.run_family)
     name = "scenarios"
-    quick_n = 930
+    quick_n = 1050
     thorough_n = 4000
     parallel = True      # every process binds its own ports (port 0) in setup()
 
@@ -332,6 +367,8 @@ class Scenarios(Family):
                 d["warm"] = None
                 d["fault"] = None
                 d["drop"] = None
+            if rng.random() < 0.15:
+                d["pad"] = list(rng.choice(PADS))
             if rng.random() < 0.02:
                 d["crowd"] = {"n": rng.choice([300, 1100, 1100] + ([2100] if thorough else [])), "shape": rng.choice(CROWD_SHAPES)}
             return d
@@ -406,6 +443,24 @@ class Scenarios(Family):
             for sit, n_others, shape, via in (("changed", 1100, "names", "trust"), ("changed-after-ok", 1100, "mixed", "trust"), ("changed", 300, "ports", "legacy"),
                                               ("pinned", 1100, "mixed", "import")):
                 wit.append({"situation": sit, "op": op, "pin_via": via, "crowd": {"n": n_others, "shape": shape}})
+        # peers that put further certificates behind their own (a copy of the pinned one, an unrelated one): the first one is the peer's
+        for op in ("get", "getq", "upload", "delete", "chain"):
+            for sit, pad, more in (("changed", PADS[0], {}), ("changed", PADS[1], {}), ("changed", PADS[2], {}), ("changed", PADS[3], {}),
+                                   ("changed-after-ok", PADS[0], {}), ("changed-after-ok", PADS[1], {}), ("hostile", PADS[0], {"cseed": 2 * len(wit)}),
+                                   ("pinned", PADS[0], {}), ("pinned", PADS[3], {}), ("unpinned", PADS[0], {}),
+                                   ("pinned", PADS[0], {"drop": "close"}), ("unpinned", PADS[1], {"drop": "reset"}),
+                                   ("changed", PADS[0], {"vssl": "env", "cert": CA_FIRST}), ("changed", PADS[1], {"vssl": "ctx", "cert": CA_FIRST + 1}),
+                                   ("changed", PADS[0], {"vssl": "flag"}), ("changed", PADS[0], {"twin": True, "cert": sorted(SELF_TWINS)[len(wit) % len(SELF_TWINS)]}),
+                                   ("changed", PADS[0], {"life": "with"}), ("changed", PADS[0], {"hcase": "upper", "host": 0})):
+                wit.append(dict({"situation": sit, "op": op, "pad": list(pad), "cert": len(wit) % 3,
+                                 "pin_via": ("trust", "import", "legacy")[len(wit) % 3] if sit != "unpinned" and not more.get("twin") and not more.get("vssl") else "trust"}, **more))
+        for op in ("getq", "upload", "delete"):
+            for sit, how, rcert in (("unpinned", "hold", "other"), ("pinned", "hold", "other"), ("pinned", "hold-rival", "other"), ("changed", "hold-rival", "same")):
+                wit.append({"situation": sit, "op": op, "pad": list(PADS[len(wit) % 2]),
+                            "rival": {"op": ("upload", "get")[len(wit) % 2], "cert": rcert, "who": ("same", "other")[len(wit) % 2], "how": how, "order": "after", "gap": 0}})
+            for sit, state in (("changed", "changed"), ("pinned", "changed"), ("unpinned", "pinned")):
+                wit.append({"situation": sit, "op": op, "pad": list(PADS[len(wit) % 2]),
+                            "along": {"op": ("get", "upload")[len(wit) % 2], "host": len(wit) % 3, "state": state, "same_cert": len(wit) % 2 == 0, "order": "after", "gap": 0}})
         for i, wcase in enumerate(self.share(wit)):
             count += 1
             base = {"tofu": True, "mode": MODES[i % 3], "cert": [0, 1, 2, 4, 5][i % 5], "size": 1000 if wcase["op"] == "upload" else 0,
@@ -474,6 +529,16 @@ class Scenarios(Family):
         via = case.get("pin_via", "trust")
         return pc, (variant_id(pc, int(via[-1])) if via.startswith("import-") else CERT_FP[pc])
 
+    def pinned_cert(self, case):
+        """index of the certificate the target host:port is pinned to when the call under test is made (None: no pin)"""
+        if case["situation"] == "changed-after-ok":
+            return other_cert(case["cert"], case.get("twin"))
+        pin = self.pin_id(case)
+        return pin[0] if pin is not None else None
+
+    def target_pad_desc(self, case) -> str:
+        return pad_desc(case, 3 if case["situation"] == "hostile" else case["cert"], self.pinned_cert(case))
+
     def hop_fault(self, case, hop_index: int) -> bool:
         """does the store fault make verification of this hop impossible (as the code stands)?"""
         f = case.get("fault")
@@ -514,6 +579,9 @@ class Scenarios(Family):
 
         def steps_for(i, reply):
             st = plain_steps_for(i, reply)
+            if case.get("pad") and i == len(hops) - 1:
+                # behind its own certificate the peer sends copies of other (public) certificates
+                st = [["append_certs", pad_names(case, target[2])]] + st
             if rv and rv["how"] == "hold" and i == len(hops) - 1:
                 # accepted, certificate chosen, but the handshake waits until the rival call has completed
                 st = [["hold", gname, 4.0]] + st
@@ -534,7 +602,9 @@ class Scenarios(Family):
         # what the port would show to one more connection: an impostor with another certificate that reads at once
         extra_scripts = []
         if drop:
-            extra_scripts.append((target[1], other_cert(target[2], case.get("twin")), [["read_request", 1.5], ["send", b"20 text/gemini\r\nimpostor\n"], ["close"]]))
+            imp = other_cert(target[2], case.get("twin"))
+            extra_scripts.append((target[1], imp, ([["append_certs", pad_names(case, imp)]] if case.get("pad") else [])
+                                  + [["read_request", 1.5], ["send", b"20 text/gemini\r\nimpostor\n"], ["close"]]))
 
         def mk_client():
             kw = {}
@@ -697,6 +767,8 @@ class Scenarios(Family):
             how = rv["how"]
             other = client if rv["who"] == "same" else mk_client()
             rsteps = [["read_request", 3.0], ["send", b"20 text/gemini\r\nrival\n"], ["close"]]
+            if case.get("pad"):
+                rsteps = [["append_certs", pad_names(case, rival_cert(case))]] + rsteps
             if how == "hold-rival":
                 rsteps = [["hold", gname, 4.0]] + rsteps
 
@@ -747,7 +819,8 @@ class Scenarios(Family):
                 if not al:
                     return await solo_call(client)
                 if al["state"] != "dead":
-                    R.peers[0].push(CERTS[along_cert(case)], [["read_request", 3.0], ["send", b"20 text/gemini\r\nbystander\n"], ["close"]])
+                    R.peers[0].push(CERTS[along_cert(case)], ([["append_certs", pad_names(case, along_cert(case), other_cert(along_cert(case)))]] if case.get("pad") else [])
+                                    + [["read_request", 3.0], ["send", b"20 text/gemini\r\nbystander\n"], ["close"]])
 
                 async def later(ms):
                     await asyncio.sleep(ms / 1000.0)
@@ -774,7 +847,7 @@ class Scenarios(Family):
             mine = [e for e in logs if e["port"] == R.ports[0]]
             logs = [e for e in logs if e["port"] != R.ports[0]]
             out["along"] = {"result": by_box[0] if by_box else None,
-                            "conns": [{"len": len(e["rx"]), "head": e["rx"][:96].decode("latin-1"), "hs": e["hs"], "cert": e["cert"]} for e in mine]}
+                            "conns": [{"len": len(e["rx"]), "head": e["rx"][:96].decode("latin-1"), "hs": e["hs"], "cert": e["cert"], "chain": e.get("chain")} for e in mine]}
 
         if rv:
             # the rival's connection: by accept order when a handshake was held (the held one was accepted first), else by the path it carries
@@ -792,7 +865,7 @@ class Scenarios(Family):
                     rlog = silent[0 if rv.get("order") == "before" else -1]
             logs = [e for e in logs if e is not rlog]
             out["rival"] = dict(riv_box[0] if riv_box else {"result": None, "held": None},
-                                conns=[{"len": len(e["rx"]), "head": e["rx"][:96].decode("latin-1"), "hs": e["hs"], "cert": e["cert"]} for e in ([rlog] if rlog else [])])
+                                conns=[{"len": len(e["rx"]), "head": e["rx"][:96].decode("latin-1"), "hs": e["hs"], "cert": e["cert"], "chain": e.get("chain")} for e in ([rlog] if rlog else [])])
 
         def want_of(j):
             if j < len(hops) - 1:
@@ -817,7 +890,7 @@ class Scenarios(Family):
                 if rx and spelled.startswith(rx) and not want.startswith(rx) or rx == spelled:
                     want = spelled
             peers.append({"len": len(rx), "equal": rx == want, "prefix": want.startswith(rx), "want_len": len(want),
-                          "head": rx[:96].decode("latin-1"), "hs": e["hs"], "cert": e["cert"], "port": R.pid(e["port"])})
+                          "head": rx[:96].decode("latin-1"), "hs": e["hs"], "cert": e["cert"], "port": R.pid(e["port"]), "chain": e.get("chain")})
         out.update({"result": res, "peers": peers})
         return out
 
@@ -911,7 +984,7 @@ class Scenarios(Family):
         if case["tofu"] and case.get("fault") in ("select", "locked"):
             got = [p["len"] for p in peers]
             if any(got):
-                return ("bytes-despite-store-fault", f"the pin store failed at lookup ({case['fault']}), so no certificate could be verified, yet the peers received "
+                return ("bytes-despite-store-fault", f"the pin store failed at lookup ({case['fault']}), so no certificate could be verified{self.target_pad_desc(case)}, yet the peers received "
                                                      f"{got} application bytes, beginning {next(p['head'] for p in peers if p['len'])[:70]!r}")
             if res[0] == "ok":
                 return ("unverified-peer-answered", f"pin store fault {case['fault']}: the call returned a response {res}")
@@ -929,13 +1002,13 @@ class Scenarios(Family):
         elif sf:
             if len(peers) == n_hops and last["len"] > 0:
                 return ("bytes-before-verification",
-                        f"{case['situation']} certificate, {case['op']} to {recase(HOSTS[case['host']], case.get('hcase'))!r}"
+                        f"{case['situation']} certificate{self.target_pad_desc(case)}, {case['op']} to {recase(HOSTS[case['host']], case.get('hcase'))!r}"
                         f"{' (pinned as ' + repr(HOSTS[case['host']]) + ')' if case.get('hcase') else ''}{along_desc(case)}{rival_desc(case)}{crowd_desc(case)}: "
                         f"verification cannot pass, yet the peer got {last['len']} application bytes: {last['head'][:70]!r} "
                         f"({case['mode']} peer; pin made via {case.get('pin_via', 'trust')}; verify_ssl=True as well: {case.get('vssl') or 'no'}; "
                         f"client object held: {case.get('life') or 'bare'}{'; presented ' + cert_desc(case['cert']) if case.get('twin') else ''})")
             if res[0] == "ok":
-                return ("unverified-peer-answered", f"{case['situation']} certificate: the call returned a response {res}")
+                return ("unverified-peer-answered", f"{case['situation']} certificate{self.target_pad_desc(case)}: the call returned a response {res}")
         else:
             # verification passes: whatever arrives must be the request, intact (a peer that never reads may see a prefix)
             for j, p in enumerate(peers):
@@ -976,7 +1049,7 @@ class Scenarios(Family):
             if odd:
                 p = odd[0]
                 return ("bytes-to-peer-with-other-certificate",
-                        f"{pair}, in flight together (started {rv.get('gap', 0)} ms apart): " + (f"the connection shown {p['cert']!r} (fingerprint {p['fp']}, not the pin) received {p['len']} application bytes"
+                        f"{pair}, in flight together (started {rv.get('gap', 0)} ms apart): " + (f"the connection shown {p['cert']!r}{chain_desc(p)} (fingerprint {p['fp']}, not the pin) received {p['len']} application bytes"
                                                                               if pin_fp is not None else
                                                                               f"connections shown DIFFERENT certificates ({fed[0]['cert']!r} and {p['cert']!r}) both received request bytes ({fed[0]['len']} and "
                                                                               f"{p['len']}); at most one certificate can pass the check of one host:port")
@@ -991,7 +1064,7 @@ class Scenarios(Family):
                 continue
             if p["fp"] != pin_fp and (p["len"] > 0 or p["res"][0] == "ok"):
                 story = (f"{pair}: {late[:6]}'s peer held its TLS handshake back until {early[:6]} was done" +
-                         (f" (shown {by['cert']!r}: first use, pinned)" if by else "") + f"; let go, it presented {p['cert']!r} - NOT the pin - and ")
+                         (f" (shown {by['cert']!r}: first use, pinned)" if by else "") + f"; let go, it presented {p['cert']!r}{chain_desc(p)} - NOT the pin - and ")
                 tail = f"; fingerprints: pin in force {pin_fp}, presented {p['fp']}; {p['call']} ended with {p['res']}, the other call with {by['res'] if by else '-'}"
                 if p["len"] > 0:
                     return ("bytes-to-peer-with-other-certificate", f"{story}received {p['len']} application bytes: {p['head'][:60]!r}{tail}")
@@ -1015,7 +1088,7 @@ class Scenarios(Family):
             if pres != pin_fp and p["len"] > 0:
                 return ("bytes-to-peer-with-other-certificate",
                         f"two calls in flight on one client object: the {al['op']} to {HOSTS[al['host']]!r} (pinned to fingerprint {pin_fp}; started {al['gap']} ms {al['order']} a "
-                        f"{case['op']} to {HOSTS[case['host']]!r} on another port, {case['situation']} there) was shown certificate {p['cert']!r} (fingerprint {pres}) and its peer "
+                        f"{case['op']} to {HOSTS[case['host']]!r} on another port, {case['situation']} there) was shown certificate {p['cert']!r} (fingerprint {pres}){chain_desc(p)} and its peer "
                         f"received {p['len']} application bytes beginning {p['head'][:70]!r}; it ended with {a['result']}")
         if al["state"] == "changed" and a["result"] and a["result"][0] == "ok":
             return ("unverified-peer-answered", f"two calls in flight on one client object: the {al['op']} to {HOSTS[al['host']]!r}, pinned to another certificate than the one "
@@ -1045,7 +1118,7 @@ class Scenarios(Family):
             if pres != pin_fp and p["len"] > 0:
                 return ("bytes-to-peer-with-other-certificate",
                         f"{case['op']} to a host:port whose pin is fingerprint {pin_fp}{along_desc(case)} ({sit}; verify_ssl/CA: {case.get('vssl')}; first connection dropped: {case.get('drop')}; client object used: {case.get('life') or 'bare'}): "
-                        f"connection {idx + 1} of the call to that port presented certificate {p['cert']!r} (fingerprint {pres}) and received "
+                        f"connection {idx + 1} of the call to that port presented certificate {p['cert']!r} (fingerprint {pres}){chain_desc(p)} and received "
                         f"{p['len']} application bytes beginning {p['head'][:70]!r}; the call ended with {obs['result']}")
         return None
 
@@ -1053,7 +1126,8 @@ class Scenarios(Family):
         dims = "".join(f" {k}={case[k]}" for k in ("warm", "pin_via", "fault", "vssl", "drop", "twin", "life", "hcase") if case.get(k) and case.get(k) != "trust") + (" host=dotted" if case["host"] >= DOTTED_FIRST else " host=lookalike" if case["host"] >= 3 else "") + (" chain_same" if case.get("chain_same") and case["op"] == "chain" else "") \
             + (f" along={case['along']['state']}/{case['along']['order']}" if case.get("along") else "") \
             + (f" rival={case['rival']['how']}/{case['rival']['cert']}/{case['rival']['who']}" if case.get("rival") else "") \
-            + (f" crowd={case['crowd']['n']}/{case['crowd']['shape']}" if case.get("crowd") else "")
+            + (f" crowd={case['crowd']['n']}/{case['crowd']['shape']}" if case.get("crowd") else "") \
+            + (f" pad={'+'.join(case['pad'])}" if case.get("pad") else "")
         return f"{'on' if case['tofu'] else 'off'} {case['situation']} {case['op']} {case['mode'] if not dims else ''}{dims} -> {obs['result'][0]} rx={[min(p['len'], 1) for p in obs['peers']]}"
 
 
